@@ -1,3 +1,4 @@
+#ifndef NATIVE_GEN   /* translation-validation builds use the real libc */
 /* "logging gets an empty body": stream output functions that discard everything (used where formatting is not the subject) */
 #include <stdio.h>
 #include <stdarg.h>
@@ -9,3 +10,4 @@ int putc(int c, FILE *fp) { (void)fp; return c; }
 int fputs(const char *p, FILE *fp) { (void)p; (void)fp; return 0; }
 int puts(const char *p) { (void)p; return 0; }
 int fflush(FILE *fp) { (void)fp; return 0; }
+#endif
